@@ -160,12 +160,26 @@ func (s *c21Sched) stacks() []byte {
 // connection pool (status "select" with (*DB).conn on its stack). A goroutine
 // that has already been handed the connection is "runnable", not "select".
 func c21BlockedInDB(dump []byte, goid int64) bool {
+	st, inConn := c21GoStatus(dump, goid)
+	return strings.HasPrefix(st, "select") && inConn
+}
+
+// c21BlockedOnSync: the goroutine waits on a sync primitive (WaitGroup, mutex,
+// semaphore), e.g. a verifier that joined another verifier's in-flight lookup.
+func c21BlockedOnSync(dump []byte, goid int64) bool {
+	st, _ := c21GoStatus(dump, goid)
+	return strings.HasPrefix(st, "semacquire") || strings.HasPrefix(st, "sync.")
+}
+
+// c21GoStatus returns the goroutine's status text and whether its stack is
+// inside database/sql's connection wait.
+func c21GoStatus(dump []byte, goid int64) (string, bool) {
 	hdr := []byte(fmt.Sprintf("goroutine %d [", goid))
 	off := 0
 	for {
 		i := bytes.Index(dump[off:], hdr)
 		if i < 0 {
-			return false
+			return "", false
 		}
 		i += off
 		if i == 0 || dump[i-1] == '\n' {
@@ -177,7 +191,7 @@ func c21BlockedInDB(dump []byte, goid int64) bool {
 			if e := bytes.IndexByte(status, ']'); e >= 0 {
 				status = status[:e]
 			}
-			return bytes.HasPrefix(status, []byte("select")) && bytes.Contains(block, []byte("database/sql.(*DB).conn("))
+			return string(status), bytes.Contains(block, []byte("database/sql.(*DB).conn("))
 		}
 		off = i + len(hdr)
 	}
@@ -213,10 +227,38 @@ func (s *c21Sched) quiesce() {
 		}
 		dump := s.stacks()
 		all := true
+		onSync := false
 		for _, g := range run {
-			if !c21BlockedInDB(dump, g.goid) {
-				all = false
-				break
+			if c21BlockedInDB(dump, g.goid) {
+				continue
+			}
+			if c21BlockedOnSync(dump, g.goid) {
+				onSync = true
+				continue
+			}
+			all = false
+			break
+		}
+		if all && onSync {
+			// A wait on a sync primitive can be momentary (a mutex held for a few
+			// instructions by a runtime-internal goroutine): accept it only when
+			// it is still there in three more dumps, with yields in between.
+			for k := 0; k < 3 && all; k++ {
+				select {
+				case ev := <-s.events:
+					s.apply(ev)
+					all = false
+				case <-time.After(500 * time.Microsecond):
+					d2 := s.stacks()
+					for _, g := range run {
+						if g.state == c21Running && !c21BlockedInDB(d2, g.goid) && !c21BlockedOnSync(d2, g.goid) {
+							all = false
+						}
+					}
+				}
+			}
+			if !all {
+				continue
 			}
 		}
 		if all {
@@ -229,7 +271,11 @@ func (s *c21Sched) quiesce() {
 			for _, g := range run {
 				if !g.blocked {
 					g.blocked = true
-					s.trace = append(s.trace, g.name+"~blocked-on-db-conn")
+					if c21BlockedInDB(dump, g.goid) {
+						s.trace = append(s.trace, g.name+"~blocked-on-db-conn")
+					} else {
+						s.trace = append(s.trace, g.name+"~blocked-on-sync")
+					}
 				}
 			}
 			return
@@ -607,6 +653,9 @@ func c21Account(r *c21Result) {
 	for _, t := range r.Trace {
 		if strings.HasSuffix(t, "~blocked-on-db-conn") {
 			blocked = true
+		}
+		if strings.HasSuffix(t, "~blocked-on-sync") {
+			verifkit.Class("released-goroutine-waits-on-another-verifier")
 		}
 	}
 	if blocked {
@@ -1014,6 +1063,104 @@ func TestVerifC21_Sequential(t *testing.T) {
 						}
 						if a1 != nil || a2 != nil {
 							t.Fatalf("VERIF-FAIL class=C21/old-value-authenticates-after-%s sequential %s: VerifyToken(old) after the mutation returned = %s, %s", kind, desc, c21Desc(a1), c21Desc(a2))
+						}
+					}
+				}
+			}
+		}
+	}
+}
+
+// ---------------------------------------------------------------------------
+// Cache-pressure table: between the target token's authentication and its
+// mutation, n OTHER distinct token values authenticate against a small token
+// cache (evictions / cache restructuring must not let the target's entry
+// survive the mutation's flush).
+// ---------------------------------------------------------------------------
+
+func TestVerifC21_CachePressure(t *testing.T) {
+	ctx := context.Background()
+	for _, kind := range []string{"revoke", "delete", "rotate", "expire"} {
+		for _, cluster := range []bool{false, true} {
+			for _, maxCache := range []int{2, 4, 8} {
+				for _, nOthers := range []int{1, 3, 6, 12} {
+					for _, reverify := range []bool{false, true} {
+						if kind == "rotate" && !cluster && (maxCache == 2 || reverify) {
+							continue // direct RotateToken pays a PBKDF2 per row; keep two sizes
+						}
+						desc := fmt.Sprintf("kind=%s cluster=%v max-cache-size=%d other-tokens=%d target-hit-again=%v", kind, cluster, maxCache, nOthers, reverify)
+						VerifSetClock(c21T0)
+						am, err := NewAuthManager(":memory:", 5*time.Minute, maxCache, zerolog.Nop())
+						if err != nil {
+							t.Fatalf("VERIF-FAIL class=C21/harness %s: %v", desc, err)
+						}
+						mk := func(name string) (string, int64) {
+							v := fmt.Sprintf("c21-press-%s-%08d-0123456789abcdef0123", name, c21Seq.Add(1))
+							var exp *time.Time
+							if kind == "expire" {
+								e := c21T0.Add(time.Hour)
+								exp = &e
+							}
+							if err := am.insertToken(c21Sha(v), tokenPrefix(v), name, "", "read,write", exp); err != nil {
+								t.Fatalf("VERIF-FAIL class=C21/harness %s: insert: %v", desc, err)
+							}
+							var id int64
+							_ = am.db.QueryRow(`SELECT id FROM api_tokens WHERE name = ?`, name).Scan(&id)
+							return v, id
+						}
+						old, id := mk("victim")
+						if am.VerifyToken(old) == nil {
+							t.Fatalf("VERIF-FAIL class=C21/harness %s: target does not authenticate", desc)
+						}
+						for i := 0; i < nOthers; i++ {
+							ov, _ := mk(fmt.Sprintf("other%d", i))
+							if am.VerifyToken(ov) == nil {
+								t.Fatalf("VERIF-FAIL class=C21/harness %s: other token does not authenticate", desc)
+							}
+							if reverify && i == nOthers/2 && am.VerifyToken(old) == nil {
+								t.Fatalf("VERIF-FAIL class=C21/harness %s: target stopped authenticating before the mutation", desc)
+							}
+						}
+						VerifSetClock(c21T0.Add(time.Minute))
+						switch kind {
+						case "revoke":
+							if cluster {
+								err = am.ApplyRevokeToken(id)
+							} else {
+								err = am.RevokeToken(ctx, id)
+							}
+						case "delete":
+							if cluster {
+								err = am.ApplyDeleteToken(id)
+							} else {
+								err = am.DeleteToken(ctx, id)
+							}
+						case "rotate":
+							if cluster {
+								nv := old + "-rotated"
+								err = am.ApplyRotateToken(id, c21Sha(nv), tokenPrefix(nv))
+							} else {
+								_, err = am.RotateToken(ctx, id)
+							}
+						case "expire":
+							past := c21T0.Add(-time.Hour)
+							if cluster {
+								err = am.ApplyUpdateToken(ClusterTokenEntry{ID: id, Name: "victim", Permissions: "read,write", ExpiresAtUnixNano: past.UnixNano()})
+							} else {
+								err = am.UpdateToken(ctx, id, nil, nil, nil, &past)
+							}
+						}
+						if err != nil {
+							t.Fatalf("VERIF-FAIL class=C21/harness %s: mutation: %v", desc, err)
+						}
+						a1, a2 := am.VerifyToken(old), am.VerifyToken(old)
+						_ = am.Close()
+						VerifSetClock(time.Time{})
+						verifkit.Eval()
+						verifkit.Class("cache-pressure-case")
+						verifkit.NonTrivial("press|" + desc)
+						if a1 != nil || a2 != nil {
+							t.Fatalf("VERIF-FAIL class=C21/old-value-authenticates-after-%s cache-pressure %s: VerifyToken(old) after the mutation returned = %s, %s", kind, desc, c21Desc(a1), c21Desc(a2))
 						}
 					}
 				}
